@@ -182,7 +182,10 @@ def keepOpNames : List String :=
 def parseKeep (ws : List String) : Option Keep.KOp :=
   match ws with
   | ["hchurn", m] => do some (.hchurn (← parseInt m))
-  | ["hnew", h, k] => do some (.hnew (← parseSlot h) (← parseKind k))
+  | ["hnew", h, k] => do
+      -- an upper-case kind letter: the container is made with `new_root` and its variable lives outside the collector's view
+      let h ← parseSlot h
+      if ["A", "L", "T", "K", "R", "Q", "U", "C"].contains k then some (.hnewRoot h (← parseKind k.toLower)) else some (.hnew h (← parseKind k))
   | ["hput", h, k, id, pay] => do some (.hput (← parseSlot h) (← parseInt k) (← parseInt id) (← parseInt pay))
   | ["hget", h, k] => do some (.hget (← parseSlot h) (← parseInt k))
   | ["hrem", h, k] => do some (.hrem (← parseSlot h) (← parseInt k))
